@@ -198,7 +198,7 @@ def run_case(case):
     reuse = rng.random() < 0.25
     cfg['same_flow_object'] = reuse
     nested = boot.rng(case['seed'], 'C07', 'nested', case['idx']).choice(
-        [None, None, None, 'checkpoint_alone', 'segment_and_checkpoint'])
+        [None, None, None, 'checkpoint_alone', 'segment_and_checkpoint', 'steps_argument'])
     cfg['checkpoint_in_nested_flow'] = nested
     if nested:
         cov['history']['checkpoint_in_nested_flow/' + nested] = 1
@@ -264,6 +264,9 @@ def run_case(case):
                 steps += [seg(k), pseg(k), d.Flow(d.checkpoint('cp%d' % k, checkpoint_path=cpdir))]
             elif nested == 'segment_and_checkpoint':
                 steps.append(d.Flow(seg(k), pseg(k), d.checkpoint('cp%d' % k, checkpoint_path=cpdir)))
+            elif nested == 'steps_argument':
+                # the segment is handed to the checkpoint as its `steps`: it runs after the links that precede it
+                steps.append(d.checkpoint('cp%d' % k, checkpoint_path=cpdir, steps=[seg(k), pseg(k)]))
             else:
                 steps.append(seg(k))
                 steps.append(pseg(k))
